@@ -47,6 +47,22 @@ def whole_program_mutants():
     out.append(({"name": "alias_ctor"}, HEAD + "tx t(n: Int, b: Bytes) { output { to: Receiver, amount: Ada(1), datum: Alias { f1: n, f2: b, }, } }"))
     out.append(({"name": "alias_ctor_missing"}, HEAD + "tx t(n: Int) { output { to: Receiver, amount: Ada(1), datum: Alias { f1: n, }, } }"))
     out.append(({"name": "alias_to_primitive_ctor"}, HEAD + "type Num = Int; tx t(n: Int) { output { to: Receiver, amount: Ada(1), datum: Num { f1: n, }, } }"))
+    # literals at the edge of what their position can hold: the output index of a UTxO reference (32 bits in the IR, 64 in
+    # the syntax tree), numbers (64 bits in the syntax tree, 128 in the IR)
+    ref = "0x" + "07" * 32
+    for ix in (2**32 - 1, 2**32, 2**32 + 5, 2**33, 2**63, 2**64 - 1):
+        out.append(({"name": f"wide_index_input_{ix}"}, HEAD + "tx t(n: Int) { input source { ref: %s#%d, } output { to: Receiver, amount: source - fees, } }" % (ref, ix)))
+        out.append(({"name": f"wide_index_reference_{ix}"}, HEAD + "tx t(n: Int) { input source { from: Sender, min_amount: fees, } reference r { ref: %s#%d, } output { to: Receiver, amount: source - fees, } }" % (ref, ix)))
+        out.append(({"name": f"wide_index_collateral_{ix}"}, HEAD + "tx t(n: Int) { input source { from: Sender, min_amount: fees, } collateral { ref: %s#%d, } output { to: Receiver, amount: source - fees, } }" % (ref, ix)))
+        out.append(({"name": f"wide_index_policy_{ix}"}, HEAD + "policy Q { hash: 0x%s, ref: %s#%d, } tx t(n: Int) { input source { from: Sender, min_amount: fees, } mint { amount: AnyAsset(Q, \"x\", n), redeemer: (), } output { to: Receiver, amount: source - fees, } }" % ("44" * 28, ref, ix)))
+        out.append(({"name": f"wide_index_datum_{ix}"}, HEAD + "tx t(n: Int) { output { to: Receiver, amount: Ada(1), datum: %s#%d, } }" % (ref, ix)))
+    for num in (2**63 - 1, -2**63, 2**32, 2**31):
+        out.append(({"name": f"wide_number_{num}"}, HEAD + "tx t(n: Int) { output { to: Receiver, amount: Ada(%d), datum: Rec { f1: %d, f2: 0x, }, } validity { until_slot: %d, } }" % (num, num, num)))
+    # a constructor without a case name on a type with several cases (there is no `Default` case to build)
+    out.append(({"name": "implicit_ctor_variant"}, HEAD + "tx t(n: Int, b: Bytes) { output { to: Receiver, amount: Ada(1), datum: Var { x: n, y: b, }, } }"))
+    out.append(({"name": "implicit_ctor_shared_fields"}, HEAD + "type Side { Buy { price: Int, }, Sell { price: Int, }, Hold { price: Int, }, } tx t(n: Int) { output { to: Receiver, amount: Ada(1), datum: Side { price: n, }, } }"))
+    out.append(({"name": "implicit_ctor_units"}, HEAD + "type Flag { On, Off, Unknown, } tx t(n: Int) { output { to: Receiver, amount: Ada(1), datum: Flag {}, } }"))
+    out.append(({"name": "implicit_ctor_single_case"}, HEAD + "type Ticket { Only { id: Int, }, } tx t(n: Int) { output { to: Receiver, amount: Ada(1), datum: Ticket { id: n, }, } }"))
     out.append(({"name": "output_no_to"}, HEAD + "tx t(n: Int) { output { amount: Ada(n), } }"))
     out.append(({"name": "output_no_amount"}, HEAD + "tx t(n: Int) { output { to: Receiver, } }"))
     out.append(({"name": "optional_with_datum"}, HEAD + "tx t(n: Int) { output ? o { to: Receiver, amount: Ada(n), datum: (), } }"))
